@@ -1,25 +1,34 @@
-(* MonitorsP.v — the C14 "offer" monitor: when the sender is ahead of the digest on some member it
+(* MonitorsP.v — proofs about the monitors of MonitorsD.v.  The C14 "offer" monitor: when the sender is ahead of the digest on some member it
    does not quarantine and every such member's header plus first operation fits the budget, the
    computed delta is not empty.  Proved here to hold of every delta the MODEL computes
    (computed_delta_passes_offer), so the monitor can only fail on a genuine difference. *)
 From Coq Require Import Lia Permutation.
 From ChitchatModel Require Import Base SMap Ids Bytes Params NodeState Stream DeltaWire Message Cluster
   FD Chitchat Monitors SMap_lemmas NodeState_lemmas Builder_lemmas Stream_lemmas Agreement Inv DeltaRefine
-  Compute_lemmas Prefix_lemmas NodeInv Codec_lemmas Emit_lemmas Progress.
+  Compute_lemmas Prefix_lemmas NodeInv Codec_lemmas Emit_lemmas Progress MonitorsD.
 
-Definition roomb_p (mtu : N) (n : stale_node) : bool :=
-  let thr := N.min P_BLOCK_THRESHOLD mtu in
-  P_BLOCK_META_LEN * (div_ceil (head_len n) thr + div_ceil (first_len n) thr) + head_len n + first_len n + 1 <=? mtu.
-
-Definition c14_offer_ok (nodes : nmap) (dg : digest) (sched : list id) (mtu : N) (x : delta) : bool :=
-  let stale := stale_nodes (mkCluster nodes []) dg sched in
-  match stale with
-  | [] => true
-  | _ :: _ =>
-      if (P_MIN_MTU <=? mtu) && (mtu <=? u16_max) && forallb (roomb_p mtu) stale
-      then match nds x with [] => false | _ :: _ => true end
-      else true
-  end.
+Theorem computed_delta_passes_agreement cs dg sched mtu x :
+  cluster_inv cs -> delta_shape cs dg sched mtu x -> c14_agree_ok dg (cs_nodes cs) x = true.
+Proof.
+  intros Hinv Hsh. unfold c14_agree_ok. apply forallb_forall. intros nd Hin.
+  destruct (computed_delta_nodes cs dg sched mtu x Hinv Hsh nd Hin) as (n & j & mv & Hn & -> & _ & Hget & _).
+  destruct (node_piece_is_mk_node_delta cs dg sched n j mv Hn) as (dgc & dmax & Hd & Hmk).
+  assert (Hid : d_id (node_piece n j mv) = sn_id n) by reflexivity.
+  rewrite Hid, Hget. unfold c14_agree_one. rewrite Hid, Hd.
+  set (r := mkCopy 0 dgc dmax []).
+  destruct (agreement_status (sn_id n) (sn_copy n) r j mv (node_piece n j mv) Hmk) as (Hiff & _ & Hrej).
+  cbn [r c_gc c_max] in Hiff.
+  set (b := (dgc <? c_gc (sn_copy n)) && (dmax <? c_gc (sn_copy n))).
+  assert (Hb : b = true <-> (dgc < c_gc (sn_copy n) /\ dmax < c_gc (sn_copy n))).
+  { unfold b. rewrite andb_true_iff, !N.ltb_lt. reflexivity. }
+  destruct (check_delta_status r (node_piece n j mv)) eqn:Est.
+  - (* Reject *)
+    destruct (Hrej eq_refl) as [E1 E2]. rewrite E1, E2. cbn [N.eqb]. rewrite andb_true_r.
+    destruct b; [|reflexivity]. pose proof (proj2 Hiff (proj1 Hb eq_refl)). discriminate.
+  - (* Apply *)
+    destruct b; [|reflexivity]. pose proof (proj2 Hiff (proj1 Hb eq_refl)). discriminate.
+  - apply Hb. apply Hiff. reflexivity.
+Qed.
 
 Section MP.
   Variable zc : bytes -> option bytes.
